@@ -5,6 +5,7 @@ import (
 	"fmt"
 
 	"go.lstv.dev/util/size"
+	"verif/firstuse"
 	"verif/libdefaults"
 	"verif/mc"
 	"verif/oracle"
@@ -99,6 +100,7 @@ func probeHist(h histArg) (string, string) {
 func main() {
 	mc.Main("C13", "every value of the stated alphabet (all values below 2^20 (quick) / 2^24 (thorough), odd x 2^k for every k, neighbourhoods of 10^k/1000^k/1024^k/2^63/2^64-1, one value per (unit, digit count) cell) x 4 formats x 5 rendering paths; "+
 		"non-trivial = value is shortened to a unit above B or has more than three digits", func(r *mc.Run) {
+		firstuse.Phase(r, map[string][]string{"size": {"format"}})
 		r.Reset = reset
 		reset()
 		p := mc.NewProbe(r, "render", setup, probe)
